@@ -102,12 +102,75 @@ def scenarios(rng, tier):
                               build=lambda n: dict(prep=[("f.cgns", ["open w adf", "new / A Lab_t C1 %d %d" % (n, sd[2]), "link / L - /A",
                                                                       "new / B Lab_t R8 3000 %d" % sd[3], "close"])],
                                                    script=["open m adf", "new / X Lab_t C1 5000 3", "del /L", "close"]))))
+    out += extended(rng, tier)
     if tier == "thorough":
         out.append(dict(name="hdf5-compress", backend="hdf5", prep=[("f.cgns", w_h5[:5] + ["close"])],
                         script=["open m hdf5", "new / Big0 Big_t R8 2000 %d" % r(), "del /Big0", "compress"]))
     for s in out:
         s.setdefault("files", ["f.cgns"])
     return corpus() + out
+
+
+FORMATS = ["IEEE_BIG_64", "IEEE_BIG_32", "IEEE_LITTLE_32", "CRAY", "IEEE_LITTLE_64", "NATIVE"]
+
+
+def extended(rng, tier):
+    """scenario FAMILIES that reach the rarely used code: files in every number format ADF can create (as they come from
+    another machine: every array is translated piecewise while it is written / read), with arrays above one disk block and
+    above the 100000-byte conversion buffer; partial writes of NGON_n / MIXED / fixed-size sections in MODIFY mode (the
+    connectivity is not in memory) whose new length fits / does not fit / extends the section; the other mid-level paths that
+    make two consecutive I/O calls (bounding box, partial coordinate / field writes, parent data, cg_save_as, cg_close with
+    compaction).  One short session per operation, so that each one starts from the state a fresh cg_open leaves.
+    They get a fault at every call under a target row and a small sample elsewhere (ext)."""
+    r = lambda: rng.randint(1, 999)
+    out = []
+    fmts = FORMATS if tier == "thorough" else FORMATS[:4]
+    for f in fmts:
+        out.append(dict(name="fmt-%s-mll" % f, backend="adf", prep=[("f.cgns", ["adfnew " + f])],
+                        script=["cgopen m adf", "base Base", "zone Zone1 9", "coord CoordinateX %d" % r(), "sol Sol1", "field Density %d" % r(),
+                                "coordpart CoordinateX 3 6 %d" % r(), "getcoord CoordinateX", "cgclose"]))
+        out.append(dict(name="fmt-%s-cgio" % f, backend="adf", prep=[("f.cgns", ["adfnew " + f])],
+                        script=["open m adf", "new / N0 L_t I4 2000 %d" % r(), "new / N1 L_t R8 14000 %d" % r(), "wr /N0 I4 3000 %d" % r(),
+                                "wrpart /N0 10 2000 %d" % r(), "wrblock /N0 100 1500 %d" % r(), "rd /N1", "rdpart /N0 5 1500", "close"]))
+    pre = ["cgopen w adf", "base Base", "uzone Zone 5000 3000", "ngon Faces 3000 4 %d" % r(), "mixed Mix 500 %d" % r(), "elems Tets 400 %d" % r(), "cgclose"]
+    ops = [("ngon-shrink-fits", ["polypart 1 101 600 3 %d" % r()]),           # quads -> triangles on an inner range: the tail is moved
+           ("ngon-grow-nofit", ["polypart 1 700 800 5 %d" % r()]),            # does not fit: the array is re-dimensioned
+           ("ngon-same", ["polypart 1 900 1200 4 %d" % r()]),
+           ("ngon-tail", ["polypart 1 2900 3000 3 %d" % r()]),                # up to the end of the section: no tail
+           ("mixed-shrink", ["mixpart 2 3100 3200 3 %d" % r()]),
+           ("mixed-grow", ["mixpart 2 3300 3350 4 %d" % r()]),
+           ("tets-inner", ["elempart 3 3510 3600 %d" % r()]),
+           ("tets-extend", ["elempart 3 3890 3950 %d" % r()]),               # beyond the end of the section: it grows
+           ("parent-data", ["parentpart 3 3501 3900 %d" % r(), "parentpart 3 3600 3700 %d" % r()]),
+           ("section-init", ["cgsel 1 1 3901", "secpart New 100", "elempart 4 3901 4000 %d" % r(), "ngon-placeholder"])]
+    for name, body in ops:
+        body = [b for b in body if b != "ngon-placeholder"]
+        out.append(dict(name="poly-" + name, backend="adf", prep=[("f.cgns", pre)], script=["cgopen m adf"] + body + ["cgclose"]))
+    out.append(dict(name="poly-combined", backend="adf", prep=[("f.cgns", pre)],
+                    script=["cgopen m adf", "polypart 1 101 600 3 %d" % r(), "polypart 1 700 800 5 %d" % r(), "mixpart 2 3100 3200 3 %d" % r(),
+                            "elempart 3 3890 3950 %d" % r(), "getelems 1", "cgclose"]))
+    pre5 = [x.replace("cgopen w adf", "cgopen w hdf5") for x in pre]
+    out.append(dict(name="poly-ngon-shrink-fits-hdf5", backend="hdf5", prep=[("f.cgns", pre5)], all_hard=True,
+                    script=["cgopen m hdf5", "polypart 1 101 600 3 %d" % r(), "cgclose"]))
+    # sections stored as 32-bit integers, written from 64-bit memory: the converting arms of WRITE_PART_1D_DATA & co.
+    for be in ("adf", "hdf5"):
+        pre4 = ["cgopen w " + be, "base Base", "uzone Zone 5000 1200", "ngon4 Faces 1200 4 %d" % r(), "cgclose"]
+        out.append(dict(name="poly-i4-shrink-fits-" + be, backend=be, prep=[("f.cgns", pre4)], all_hard=(be == "hdf5"),
+                        script=["cgopen m " + be, "polypart 1 101 400 3 %d" % r(), "cgclose"]))
+        out.append(dict(name="poly-i4-grow-nofit-" + be, backend=be, prep=[("f.cgns", pre4)], all_hard=(be == "hdf5"),
+                        script=["cgopen m " + be, "polypart 1 500 600 5 %d" % r(), "cgclose"]))
+    mw = ["cgopen w adf", "base Base", "zone Zone1 9", "coord CoordinateX %d" % r(), "coord CoordinateY %d" % r(), "sol Sol1", "field Density %d" % r(),
+          "desc Info hello", "cgclose"]
+    out.append(dict(name="mll-two-io", backend="adf", prep=[("f.cgns", mw)],
+                    script=["cgopen m adf", "zn 9", "bbox %d" % r(), "coordpart CoordinateY 2 5 %d" % r(), "sol Sol2", "fieldpart Pressure 1 4 %d" % r(),
+                            "getcoord CoordinateY", "cgclose"]))
+    out.append(dict(name="mll-save-as", backend="adf", prep=[("f.cgns", mw)], files=["f.cgns", "g.cgns"],
+                    script=["cgopen m adf", "saveas g.cgns adf", "cgclose"]))
+    out.append(dict(name="mll-delete-compress", backend="adf", prep=[("f.cgns", mw)],
+                    script=["cgopen m adf", "cgdeldesc Info", "desc Info2 world", "cgclose"]))
+    for s in out:
+        s["ext"] = True
+    return out
 
 
 def corpus():
@@ -424,6 +487,22 @@ def run_extra(ck, standalone=False):
     per_target = {k: {"kind": v, "positions": 0, "runs": 0, "reported": 0, "problems": 0, "scenarios": []} for k, v in targets.items()}
     preload = ipso + ":" + wso
     ex["tuned"] = {}
+    # coverage map: function -> {scenario: number of system calls made under it}, rebuilt on every run from the call stacks and
+    # kept under .build/c14b_cache; the map of the previous run orders the scenarios when a row breaks in function F
+    coverage = {}
+    bad_fns = set(k[0] for k, v in targets.items() if v == "bad")
+    covf = os.path.join(vlib.BUILD, "c14b_cache", "coverage%s.json" % vlib._TAG)
+    old_cov = {}
+    for f in (covf, os.path.join(vlib.BUILD, "c14b_cache", "coverage.json")):
+        if os.path.exists(f):
+            try:
+                old_cov = json.load(open(f)); break
+            except Exception:
+                pass
+    if bad_fns:
+        reach = set(n for fnm in bad_fns for n in old_cov.get(fnm, {}))
+        scs.sort(key=lambda c: (0 if c.get("corpus_target") else 1, 0 if c["name"] in reach else 1))
+        ex["search_order"] = {"broken_functions": sorted(bad_fns), "scenarios_known_to_reach_them": sorted(reach)}
     for sc in scs:
         t_sc = __import__("time").time()
         sw = os.path.join(work, sc["name"])
@@ -465,6 +544,12 @@ def run_extra(ck, standalone=False):
                 else:
                     exercised.add((caller, r["line"], callee))
 
+        fns_here = set(c for e in chains.values() for (c, _, _) in e)
+        for k, e in chains.items():
+            for fnm in set(c for (c, _, _) in e):
+                coverage.setdefault(fnm, {}).setdefault(sc["name"], 0)
+                coverage[fnm][sc["name"]] += 1
+
         def op_index(k):
             for i, b in enumerate(bounds):
                 if k < b:
@@ -480,7 +565,7 @@ def run_extra(ck, standalone=False):
                 continue
             per_target[tkey]["positions"] += len(pos)
             per_target[tkey]["scenarios"].append(sc["name"])
-            if not big and len(pos) > 10:
+            if not big and len(pos) > 10 and targets[tkey] != "bad":
                 # spread over the distinct stacks first
                 seen, pick = set(), []
                 for k in pos:
@@ -490,12 +575,38 @@ def run_extra(ck, standalone=False):
                 rest = [k for k in pos if k not in pick]
                 ck.rng.shuffle(rest)
                 pos = (pick + rest)[:10]
+            if targets[tkey] == "bad" and len(pos) > 60 and not big:
+                seen, pick = set(), []
+                for k in pos:
+                    sig = (tuple(chains[k]), calls[k]["name"])
+                    if sig not in seen:
+                        seen.add(sig); pick.append(k)
+                rest = [k for k in pos if k not in pick]
+                pos = (pick + rest[:: max(1, len(rest) // 40)])[:60]
             for k in pos:
-                for kind in HARD[calls[k]["name"]][: (2 if big else 1)]:
+                for kind in HARD[calls[k]["name"]][: (2 if big or targets[tkey] == "bad" else 1)]:
                     jobs.append((k, kind)); why.setdefault((k, kind), []).append(tkey)
-        others = [k for k in hard if not any((k, kd) in why for kd in ("eio", "enospc"))]
+        # a row that breaks the obligation in function F but is not reached on its own line here: every call made through F
+        via_fn = []
+        for tkey, kind_t in targets.items():
+            if kind_t == "bad" and sc["name"] not in per_target[tkey]["scenarios"]:
+                pos = [k for k in hard if any(c == tkey[0] for (c, _, _) in chains[k])]
+                seen, pick = set(), []
+                for k in pos:
+                    sig = (tuple(chains[k]), calls[k]["name"])
+                    if sig not in seen:
+                        seen.add(sig); pick.append(k)
+                via_fn += pick[:12]
+                if pick:
+                    per_target[tkey]["via_function"] = per_target[tkey].get("via_function", 0) + len(pick[:12])
+        for k in via_fn:
+            jobs.append((k, "eio"))
+        others = [k for k in hard if not any((k, kd) in why for kd in ("eio", "enospc")) and k not in via_fn]
         ck.rng.shuffle(others)
-        for k in others[: (len(others) if big or sc.get("all_hard") else 14)]:
+        nsample = len(others) if big or sc.get("all_hard") else (4 if sc.get("ext") else 14)
+        if sc.get("ext") and not big and bad_fns and not (bad_fns & fns_here):
+            nsample = 0                                               # the search is after a broken row this session cannot reach
+        for k in others[:nsample]:
             jobs.append((k, "eio"))
         jobs = sorted(set(jobs))
         # the machine's verdict along each stack
@@ -598,6 +709,14 @@ def run_extra(ck, standalone=False):
         stats["scenarios"][sc["name"]] = ps
         shutil.rmtree(sw, ignore_errors=True)
     pool.shutdown()
+    try:
+        os.makedirs(os.path.dirname(covf), exist_ok=True)
+        json.dump(coverage, open(covf + ".tmp", "w")); os.replace(covf + ".tmp", covf)
+    except OSError:
+        pass
+    stats["functions_reached"] = len(coverage)
+    stats["coverage_of_reaching_functions"] = "%d of %d" % (len([f for f in L["reach"] if f in coverage]), len(L["reach"]))
+    stats["not_reached"] = sorted(f for f in L["reach"] if f not in coverage)[:80]
     stats["rows_exercised"] = len(exercised)
     stats["replayed"] = {"%s:%s" % k: v for k, v in per_target.items()}
     ex["dynamic"] = stats
@@ -607,6 +726,8 @@ def run_extra(ck, standalone=False):
     reported_keys = set()
     hdf5_known = {"hdf5-write-failure-crash-inside-libhdf5", "hdf5-compress-enospc-crash-on-next-open"}
     plain = 0
+    silent_rows = set(tuple(f["row"]) for f in fails if f["row"] and f["problem"] != "unreported")
+    fails = [f for f in fails if not (f["problem"] == "unreported" and f["row"] and tuple(f["row"]) in silent_rows)]
     for f in fails:
         in_h5 = "@H5" in (f["outcome"] or "") or "libhdf5" in (f["stderr"] or "")
         if f["backend"] == "hdf5" and f["problem"] in ("crash", "crash-on-reopen") and in_h5:
@@ -624,8 +745,13 @@ def run_extra(ck, standalone=False):
         elif plain < 3:
             plain += 1
             ck.violation(rec)
-    bad_unfound = [b for b in L["bad"] if "unchecked-status:%s:%s" % (b["caller"], b["callee"]) not in reported_keys and
-                   "unreported-failure:%s:%s" % (b["caller"], b["callee"]) not in reported_keys]
+    def found(b):
+        return ("unchecked-status:%s:%s" % (b["caller"], b["callee"]) in reported_keys or
+                "unreported-failure:%s:%s" % (b["caller"], b["callee"]) in reported_keys)
+    # rows of one source line are the arms of one statement (WRITE_PART_1D_DATA expands to a cgio_write_data arm and a
+    # cgio_write_data_type arm): a failing input through one arm settles the line
+    found_lines = set((b["caller"], b["line"]) for b in L["bad"] if found(b))
+    bad_unfound = [b for b in L["bad"] if not found(b) and (b["caller"], b["line"]) not in found_lines]
     obligations_broken = bool(broken) or not all(L["ok"]) or bool(forb)
     if (obligations_broken and bad_unfound) or (obligations_broken and not L["bad"] and not fails) or (corr_broken and not fails):
         ck.violation({"broken_obligations": broken and [{k: b[k] for k in ("obligation", "where")} for b in broken],
